@@ -15,7 +15,7 @@ if [ ! -d $ALT_REPO ]; then git -C /repo worktree add -q --detach $ALT_REPO HEAD
 git -C $ALT_REPO checkout -q --detach "$(git -C /repo rev-parse HEAD)" 2>/dev/null
 git -C $ALT_REPO checkout -q -- . 
 mkdir -p $ALT_VERIF
-rsync -a --delete --exclude harness/target --exclude .git --exclude replays --exclude evidence --exclude seeded --exclude mutants /verif/ $ALT_VERIF/
+rsync -a --delete --exclude harness/target --exclude .git --exclude replays --exclude evidence --exclude seeded --exclude mutants "${VERIF_SRC:-/verif}/" $ALT_VERIF/
 grep -rlI --exclude-dir=target '/repo' $ALT_VERIF/check $ALT_VERIF/setup.sh $ALT_VERIF/tools $ALT_VERIF/harness --include='*.toml' --include='*.rs' --include='*.sh' --include='*.py' --include=check 2>/dev/null | while read -r f; do
     sed -i "s#/repo#$ALT_REPO#g" "$f"
 done
